@@ -508,27 +508,35 @@ class FakeRLock(FakeLock):
     reentrant = True
 
 
+def _pt(label, cond=None, timeout_ok=False):
+    """Scheduling point if we run under the scheduler, a no-op otherwise (code outside an exploration)."""
+    s = CUR
+    if s is None or cur_thread() is None:
+        return False
+    return s.point(label, cond, timeout_ok)
+
+
 class FakeEvent:
     def __init__(self):
         self.flag = False
         self.eid = CUR.new_id('event') if CUR else 0
 
     def set(self):
-        CUR.point(('event', self.eid))
+        _pt(('event', self.eid))
         self.flag = True
 
     def clear(self):
-        CUR.point(('event', self.eid))
+        _pt(('event', self.eid))
         self.flag = False
 
     def is_set(self):
-        CUR.point(('event', self.eid))
+        _pt(('event', self.eid))
         return self.flag
 
     isSet = is_set
 
     def wait(self, timeout=None):
-        CUR.point(('event', self.eid), lambda: self.flag, timeout_ok=timeout is not None)
+        _pt(('event', self.eid), lambda: self.flag, timeout_ok=timeout is not None)
         return self.flag
 
 
@@ -1075,6 +1083,13 @@ def install(pu, extra_roots=()):
     pu.queue = FakeQueueModule
     pu.threading = FakeThreadingModule()
     pu.concurrent = FakeConcurrentModule
+    for mod in extra_roots:
+        # synchronisation primitives that other library modules import at module level are owned as well
+        if isinstance(mod, types.ModuleType):
+            if hasattr(mod, 'threading'):
+                mod.threading = FakeThreadingModule()
+            if hasattr(mod, 'queue'):
+                mod.queue = FakeQueueModule
     multiprocessing.Pool = FakeMPPool
     pm = types.ModuleType('pathos.multiprocessing')
     pm.ProcessPool = FakePathosProcessPool
